@@ -2,7 +2,7 @@
     and correspondence of Geom/Scale.v, Geom/Rotate.v with it ([corr_ok]).
     Imports only models and definitions (never a proof file). *)
 From Coq Require Import List ZArith Bool PrimFloat.
-From CGV Require Import Base.PyBase Geom.Num Gen.GeomGen Geom.IndexMap Geom.Scale Geom.Rotate Geom.CisTrans Geom.Tail.
+From CGV Require Import Base.PyBase Geom.Num Gen.GeomGen Geom.IndexMap Geom.Scale Geom.Rotate Geom.CisTrans Geom.Tail Geom.Layouts.
 Import ListNotations.
 Open Scope Z_scope.
 
@@ -55,6 +55,18 @@ Inductive case :=
        (exc : nat)
        (calls : list (Z * Z * Z))                    (* recorded rotate_subgraph calls: anchor, target, angle *)
        (pre post : list (Z * fvec2))
+| CRefined (nodes : list Z) (edges : list (Z * Z))
+           (exc : nat)                                  (* 0 none, 4 raised inside vespr_layout/_force_minimize, 2 other, 3 malformed *)
+           (vkeys : list Z)                             (* key order of the dict the last vespr_layout call returned *)
+           (opt : res (list fvec2))                     (* rows the last _force_minimize call returned / it raised *)
+           (al : option (float * float)) (ain mid : list fvec2)   (* rotate_to_axis: cos/sin, rows in, rows out *)
+           (post : list (Z * fvec2))
+| CCirc (nodes : list Z) (edges : list (Z * Z))
+        (al : option (float * float))                   (* align_with given (cos/sin when rotate was reached, else NaN) *)
+        (exc : nat)                                     (* 0 none, 1 UnboundLocalError, 2 other, 3 malformed *)
+        (coords : list fvec2)                           (* _generate_circle_coordinates result *)
+        (cyc : list (Z * Z))                            (* nx.find_cycle result *)
+        (post : list (Z * fvec2))
 | CSkip.
 
 Definition call_contract_b (edges : list (Z * Z)) (c : call) : bool :=
@@ -88,6 +100,15 @@ Fixpoint pos_close (pre model obs : list (Z * fvec2)) : bool :=
     TAlign (align_with given): the rows handed to rotate_to_axis are the values of [cur] in dict order ([ain]), the
     generated rotation of them agrees with the rows that came back ([mid], which become the current dict);
     TRescale: norm transcript within its contract on [cur], then the float rescale, bit for bit. *)
+Fixpoint rows_eqb (a b : list fvec2) : bool :=
+  match a, b with
+  | [], [] => true
+  | p :: a', q :: b' => v2eqb p q && rows_eqb a' b'
+  | _, _ => false
+  end.
+Definition rows_close (pre model obs : list fvec2) : bool :=
+  let z := map (fun p => (0, p)) in pos_close (z pre) (z model) (z obs).
+
 Definition corr_step (edges : list (Z * Z)) (db : float) (al : option (float * float)) (ain mid : list (Z * fvec2))
            (lens : list float) (acc : bool * list (Z * fvec2)) (st : tail_step) : bool * list (Z * fvec2) :=
   let '(ok, cur) := acc in
@@ -125,6 +146,30 @@ Definition corr_ok (c : case) : bool :=
       | Err ELookup => Nat.eqb exc 1
       | Err _ => false
       end
+  | CRefined nodes edges exc vkeys opt al ain mid post =>
+      match opt with
+      | Err _ => Nat.eqb exc 4
+      | Ok rows =>
+          Nat.eqb exc 0 && al_contract_b al &&
+          match al with
+          | None => true
+          | Some _ => rows_eqb rows ain && rows_close rows (align_rows numF al rows) mid
+          end &&
+          match refined_layout numF None nodes (Ok (match al with None => rows | Some _ => mid end)) with
+          | Ok pos => pos_eqb pos post
+          | Err _ => false
+          end
+      end
+  | CCirc nodes edges al exc coords cyc post =>
+      match circular_layout numF al coords (Ok cyc) with
+      | Ok pos => Nat.eqb exc 0 &&
+                  match circ_align, al with
+                  | CircAlignApplied, Some _ => pos_close pos pos post      (* numpy's np.dot: not bit for bit *)
+                  | _, _ => pos_eqb pos post
+                  end
+      | Err EUnbound => Nat.eqb exc 1
+      | Err _ => false
+      end
   | CSkip => true
   end.
 
@@ -154,6 +199,26 @@ Definition prop_fail (c : case) : nat :=
       else if negb (forallb (fun kp => ffinite (fst (snd kp)) && ffinite (snd (snd kp))) post) then 7%nat
       else if negb (forallb (fun e => let a := flen pre e in let b := flen post e in
                                       PrimFloat.leb (fabs (a - b)) (rel9 * (1 + a)))%float edges) then 8%nat
+      else 0%nat
+  | CRefined nodes edges exc vkeys opt al ain mid post =>
+      if Nat.eqb exc 4 then 11%nat
+      else if Nat.eqb exc 3 then 2%nat
+      else if negb (Nat.eqb exc 0) then 1%nat
+      else if negb (Nat.eqb (length post) (length nodes) && forallb (fun k => has_key k post) nodes) then 2%nat
+      else if negb (forallb (fun kp => ffinite (fst (snd kp)) && ffinite (snd (snd kp))) post) then 3%nat
+      else if existsb (coincide post) edges then 4%nat
+      else (* every node received the row the optimiser computed for IT: row j belongs to the j-th key of the dict
+              that vespr_layout returned *)
+           let final := match al, opt with Some _, _ => mid | None, Ok rows => rows | None, Err _ => [] end in
+           if negb (Nat.eqb (length vkeys) (length final) &&
+                    forallb (fun kr => v2eqb (posf post (fst kr)) (snd kr)) (combine vkeys final)) then 9%nat
+           else 0%nat
+  | CCirc nodes edges al exc coords cyc post =>
+      if Nat.eqb exc 3 then 2%nat
+      else if negb (Nat.eqb exc 0) then 10%nat
+      else if negb (Nat.eqb (length post) (length nodes) && forallb (fun k => has_key k post) nodes) then 2%nat
+      else if negb (forallb (fun kp => ffinite (fst (snd kp)) && ffinite (snd (snd kp))) post) then 3%nat
+      else if existsb (coincide post) edges then 4%nat
       else 0%nat
   | CSkip => 0%nat
   end.
